@@ -150,6 +150,16 @@ def specParaLevels (ds : DataSource) (t : Text) (classes : List BidiClass) (p : 
   let chars : List Spec.Ch := segs.map (fun s => { cls := classes.getD s.start .ON, brk := ds.brk s.cp })
   Spec.paragraphLevels p.level chars
 
+/-- UAX #9 levels of every character of the text, from nothing but the text and the data source's answers (P1 split,
+    P2/P3, X5c, X1–I2): property C01 is about the TEXT, so the crate's levels are compared with these and not with
+    what the rules give for the classes / paragraph levels the crate itself reports (those are C02's subject) -/
+def specTextLevels (ds : DataSource) (t : Text) (dflt : Option Nat) : List Nat :=
+  let chars0 : List Spec.Ch := t.segs.map (fun s => { cls := ds.cls s.cp, brk := ds.brk s.cp })
+  (Spec.splitParagraphs chars0).flatMap (fun pc =>
+    let raw := pc.map (·.cls)
+    let chars : List Spec.Ch := (pc.zip (Spec.resolveFSI raw)).map (fun (c, k) => { c with cls := k })
+    Spec.paragraphLevels (Spec.paraLevel dflt raw) chars)
+
 def checkBidi (f : Fields) (ans : Fields) (panicked : Bool) : Verdict :=
   let enc := getF f "enc"
   let api := getF f "api"
@@ -187,9 +197,7 @@ def checkBidi (f : Fields) (ans : Fields) (panicked : Bool) : Verdict :=
         let repP := segs.map (fun s => c.getD s.start .ON)
         p.level == Spec.paraLevel dflt rawP && repP == Spec.resolveFSI rawP)
       let v := v.add perPara "S:C02"
-      let lvOk := ps.all (fun p =>
-        specParaLevels ds t c p == (segsIn t p.start p.stop).map (fun s => l.getD s.start 0))
-      let v := v.add lvOk "S:C01"
+      let v := v.add (specTextLevels ds t dflt == atStarts t l 0) "S:C01"
       -- C17
       let sdirs := String.intercalate ";" (ps.map (fun p => dirName (specDirection (slice l p.start p.stop))))
       let v := v.add (getF ans "DIR" == sdirs) "S:C17"
@@ -231,7 +239,7 @@ def checkBidi (f : Fields) (ans : Fields) (panicked : Bool) : Verdict :=
       let v := if single then
           let p : ParaInfo := { start := 0, stop := t.len, level := pl }
           let v := v.add (pl == Spec.paraLevel dflt raw && atStarts t c .ON == Spec.resolveFSI raw) "S:C02"
-          v.add (t.len == 0 || specParaLevels ds t c p == atStarts t l 0) "S:C01"
+          v.add (specTextLevels ds t dflt == atStarts t l 0) "S:C01"
         else v
       let v := v.add (getF ans "DIR" == dirName (specDirection l)) "S:C17"
       let v := v.add (getF ans "HR" == "1" || !(l.any (· % 2 == 1))) "S:C17"
@@ -284,6 +292,10 @@ def checkLine (f : Fields) (ans : Fields) (panicked : Bool) : Verdict :=
   let b := (getF f "b").toNat?.getD 0
   let v : Verdict := { stats := s!"n={t.segs.length} units={t.len} line={b - a}" }
   if panicked then v.add false "S:C07"
+  else if a == b then
+    -- an empty line: outside C05/C06/C07 ("every non-empty line"); C17 quantifies over the empty text, whose only line
+    -- is empty: without an RTL level, `reorder_line` returns the (empty) line unchanged
+    if getF ans "HR" == "0" then v.add (getF ans "RO" == "") "S:C17" else v
   else
     let c := classList (getF ans "C")
     let l := natList (getF ans "L")
@@ -333,10 +345,12 @@ def checkLine (f : Fields) (ans : Fields) (panicked : Bool) : Verdict :=
       let v := v.add (uniform t rl 0 && rl.length == t.len) "S:C08"
       let v := v.add (rpc.length == t.segs.length) "S:C08"
       -- Spec C05
-      let v := v.add (vl == rl) "S:C05"
-      let v := v.add (runsPartitionOk rl a b runs) "S:C05"
-      let lineLv := sliceL rl a b
-      let v := v.add (runsOrder rl runs == (Spec.l2 lineLv).map (· + a)) "S:C05"
+      -- "the returned levels are the L1 line levels": against the Spec's L1 of the resolved levels, not against the
+      -- crate's own `reordered_levels` (the two share their code); the runs are judged on the levels returned with them
+      let v := v.add (vl == expectRl) "S:C05"
+      let v := v.add (runsPartitionOk vl a b runs) "S:C05"
+      let lineLv := sliceL vl a b
+      let v := v.add (runsOrder vl runs == (Spec.l2 lineLv).map (· + a)) "S:C05"
       let v := v.add (druns == runs) "S:C05"
       -- Spec C06 (UTF-16: well-formed text only)
       let wellFormed := enc != "16" || lineSegs.all (fun s => !(s.cp == 0xFFFD && tcp.getD s.start 0 != 0xFFFD))
